@@ -391,18 +391,94 @@ theorem translated_errreg_wait_init_returns_iff_ready (env : Nat → St → St) 
         cases h' : (env s.log.length s.st).error <;> simp_all
       simp [hd, he, hn, this]
 
-/-- `_TerminatingSignal.__enter__`: without a signal number nothing; else the old handler is saved FIRST, then
-    the new one installed -/
+/-- `_TerminatingSignal.__enter__`: without a signal number nothing; else the old handler is saved FIRST (the value
+    saved is the one from before the installation), then the new one installed -/
 theorem translated_errreg_sig_enter_is_model (sc : Bool) (s : TS) :
     TrE.sigEnter (sgPrims sc) s =
-      if s.signo then ({ s with saved := some s.handler, handler := true }, .next ()) else (s, .ret false) :=
-  sig_enter_spec sc s
+      if s.signo then ({ s with saved := some s.handler, handler := true }, .next ()) else (s, .ret false) := by
+  unfold TrE.sigEnter
+  cases h : s.signo <;> simp [h, bind_apply, get_apply, pure_apply, ret_apply]
 
-/-- `__exit__` restores the handler and returns a FALSE value on every path: an exception of the `with` body
-    propagates (what `M.withCtx` assumes in the translated `run()`) -/
+/-- `__exit__` restores the saved handler and returns a FALSE value on every path: an exception of the `with`
+    body propagates (what `M.withCtx` assumes in the translated `run()`) -/
 theorem translated_errreg_sig_exit_returns_false (sc : Bool) (s : TS) (b : Bool) (hs : s.saved = some b) :
-    TrE.sigExit (sgPrims sc) s = (if s.signo then { s with handler := b } else s, .ret false) :=
-  sig_exit_spec sc s b hs
+    TrE.sigExit (sgPrims sc) s =
+      (if s.signo then { s with handler := b } else s, .ret false) := by
+  unfold TrE.sigExit
+  cases h : s.signo <;> simp [h, hs, bind_apply, get_apply, ret_apply, pure_apply]
+
+/-- … and without a signal number it touches nothing -/
+theorem translated_errreg_sig_exit_without_signal (sc : Bool) (s : TS) (hs : s.signo = false) :
+    TrE.sigExit (sgPrims sc) s = (s, .ret false) := by
+  unfold TrE.sigExit
+  simp [hs, bind_apply, get_apply, ret_apply, pure_apply]
+
+/-- the actions of the signal handler -/
+theorem translated_errreg_sig_handler_acts (sc : Bool) (s : TS) :
+    TrE.sigHandler (sgPrims sc) s =
+      ({ s with st := (step s.st .sigterm).1, sched := s.sched ++ [.cancelled 4], chained := s.chained || sc }, .next ()) := by
+  unfold TrE.sigHandler
+  cases sc <;> simp [bind_apply, get_apply, pure_apply, step]
+
+
+/-- the "stop everything" loop over supporting tasks: each one that is not done is cancelled; the model state is untouched -/
+theorem translated_errreg_run_stop_loop_cancels_unfinished (env : Nat → St → St) : ∀ (l : List Nat) (s : TS),
+    TrE.run_for1 (runPrims env) (l.map Tk.sup) s =
+      ({ s with cancelled := s.cancelled ++ (l.filter fun i => !(s.st.supDone.any (·.1 == i))).map Tk.sup }, .next ()) := by
+  intro l
+  induction l with
+  | nil => intro s; simp [TrE.run_for1, pure_apply]
+  | cons i l ih =>
+    intro s
+    simp only [List.map_cons]
+    unfold TrE.run_for1
+    cases hd : s.st.supDone.any (·.1 == i) <;>
+      simp [hd, bind_apply, get_apply, taskDone, ih, List.filter_cons]
+
+
+/-- the collection loop over supporting tasks #k … #k+m-1: the first failure (in the order of the arguments)
+    is kept unless an error was collected before -/
+theorem translated_errreg_run_collect_supporting (env : Nat → St → St) (n : Nat) : ∀ (m k : Nat) (re : Option PyExc) (s : TS), k + m ≤ n →
+    TrE.run_for2 (runPrims env) (coros n) ((List.range' k m).map fun (i : Nat) => ((i : Int), Tk.sup i)) re s =
+      (s, .next (orElseSup re ((List.range' k m).findSome? (supFailure s.st.supDone)))) := by
+  intro m
+  induction m with
+  | zero => intro k re s _; cases re <;> simp [TrE.run_for2, pure_apply, orElseSup]
+  | succ m ih =>
+    intro k re s hk
+    simp only [List.range'_succ, List.map_cons]
+    unfold TrE.run_for2
+    have hlen : (coros n).length = n := by simp [coros]
+    have h1 : -(n : Int) ≤ (k : Int) ∧ (k : Int) < (n : Int) := by omega
+    have h2 : ¬ ((k : Int) < 0) := by omega
+    cases hf : supFailure s.st.supDone k with
+    | some id =>
+      cases re <;>
+        simp [hf, bind_apply, pure_apply, raise_apply, tryExcept_apply, hlen, h1, h2, ih (k + 1) _ s (by omega),
+          orElseSup, List.findSome?_cons, Err.isCancel]
+    | none =>
+      cases hd : s.st.supDone.any (·.1 == k) <;> cases re <;>
+        simp [hf, hd, bind_apply, pure_apply, raise_apply, tryExcept_apply, ih (k + 1) _ s (by omega),
+          orElseSup, List.findSome?_cons, Err.isCancel]
+
+
+/-- the whole collection loop of run(): the simulation task first, then the supporting tasks in order -/
+theorem translated_errreg_run_collect_is_runRaises (env : Nat → St → St) (n : Nat) (s : TS) :
+    TrE.run_for2 (runPrims env) (coros n) (((-1 : Int), Tk.sim) :: (List.range' 0 n).map fun (i : Nat) => ((i : Int), Tk.sup i)) none s =
+      (s.await env .simtask, .next ((runRaises (s.await env .simtask).st n).map PyExc.err)) := by
+  unfold TrE.run_for2
+  have hc := fun re => translated_errreg_run_collect_supporting env n n 0 re (s.await env .simtask) (by omega)
+  cases he : (s.await env .simtask).st.error with
+  | none =>
+    simp [bind_apply, pure_apply, tryExcept_apply, awaitSim, runForeverRaises, he, hc, orElseSup, runRaises, shutdownRaises,
+      firstSupError_eq, List.range_eq_range']
+    congr 1; funext i; simp only [Function.comp_apply]; cases supFailure (TS.await env Aw.simtask s).st.supDone i <;> rfl
+  | some e =>
+    cases hk : e.isCancel <;>
+    simp [bind_apply, pure_apply, tryExcept_apply, awaitSim, runForeverRaises, he, hk, hc, orElseSup, runRaises, shutdownRaises,
+      firstSupError_eq, List.range_eq_range']
+    congr 1; funext i; simp only [Function.comp_apply]; cases supFailure (TS.await env Aw.simtask s).st.supDone i <;> rfl
+
 
 /-- the signal handler IS the model's `sigterm`: it queues `abort(CancelledError(<signal message>))` (the model's
     wake entry `sig`, which delivers exactly that error) and chains to the previous handler iff it is callable -/
@@ -411,7 +487,7 @@ theorem translated_errreg_sig_handler_is_sigterm (sc : Bool) (s : TS) :
       ({ s with st := (step s.st .sigterm).1, sched := s.sched ++ [.cancelled 4], chained := s.chained || sc },
        .next ()) ∧
     (wakeStep (step s.st .sigterm).1 .sig).2 = [.cancelled 4] := by
-  refine ⟨sig_handler_spec sc s, ?_⟩
+  refine ⟨translated_errreg_sig_handler_acts sc s, ?_⟩
   simp [wakeStep]
 
 /-- `run(*coroutines)` with n ≥ 1 supporting coroutines IS the model's account of it (`runModel`): the
@@ -438,8 +514,8 @@ theorem translated_errreg_run_is_model (env : Nat → St → St) (n : Nat) (c : 
     exact congrArg _ (enumFrom_sups n 0)
   unfold TrE.run
   by_cases hd : (env 2 ((env 1 (env 0 s0)).addWake .runAbort)).phase = .done <;> cases c <;>
-  simp [withCtx_apply, bind_apply, tryFinally_apply, callFn, sig_enter_spec, sig_exit_spec, sig_exit_nosig, hne, hlen, pure_apply, get_apply,
-    tryExcept_apply, taskDone, h1, hd, TS.await, cancel_sups, henum, abortP, runModel, wakeStep, collect_all]
+  simp [withCtx_apply, bind_apply, tryFinally_apply, callFn, translated_errreg_sig_enter_is_model, translated_errreg_sig_exit_returns_false, translated_errreg_sig_exit_without_signal, hne, hlen, pure_apply, get_apply,
+    tryExcept_apply, taskDone, h1, hd, TS.await, translated_errreg_run_stop_loop_cancels_unfinished, henum, abortP, runModel, wakeStep, translated_errreg_run_collect_is_runRaises]
   all_goals (generalize runRaises _ n = r; cases r <;> rfl)
 
 /-- run() never cancels the simulation task directly (it would abort the clean-up) -/
@@ -461,11 +537,11 @@ theorem translated_errreg_run_without_coroutines (env : Nat → St → St) (c : 
   cases he : (env 0 s0).error with
   | none =>
     cases c <;>
-    simp [withCtx_apply, bind_apply, tryFinally_apply, callFn, sig_enter_spec, sig_exit_spec, sig_exit_nosig, pure_apply, get_apply,
+    simp [withCtx_apply, bind_apply, tryFinally_apply, callFn, translated_errreg_sig_enter_is_model, translated_errreg_sig_exit_returns_false, translated_errreg_sig_exit_without_signal, pure_apply, get_apply,
       tryExcept_apply, TS.await, awaitSim, runForeverRaises, he, ret_apply, runRaises, shutdownRaises, firstSupError]
   | some e =>
     cases hk : e.isCancel <;> cases c <;>
-    simp [withCtx_apply, bind_apply, tryFinally_apply, callFn, sig_enter_spec, sig_exit_spec, sig_exit_nosig, pure_apply, get_apply,
+    simp [withCtx_apply, bind_apply, tryFinally_apply, callFn, translated_errreg_sig_enter_is_model, translated_errreg_sig_exit_returns_false, translated_errreg_sig_exit_without_signal, pure_apply, get_apply,
       tryExcept_apply, TS.await, awaitSim, runForeverRaises, he, hk, ret_apply, raise_apply, runRaises, shutdownRaises, firstSupError]
 
 /-- the simulation task is already finished after the first yield: its error is re-raised (a cancellation:
@@ -482,11 +558,11 @@ theorem translated_errreg_run_simtask_dead_early (env : Nat → St → St) (n : 
   cases he : (env 0 s0).error with
   | none =>
     cases c <;>
-    simp [withCtx_apply, bind_apply, tryFinally_apply, callFn, sig_enter_spec, sig_exit_spec, sig_exit_nosig, pure_apply, get_apply, hne,
+    simp [withCtx_apply, bind_apply, tryFinally_apply, callFn, translated_errreg_sig_enter_is_model, translated_errreg_sig_exit_returns_false, translated_errreg_sig_exit_without_signal, pure_apply, get_apply, hne,
       tryExcept_apply, TS.await, taskDone, h1, runForeverRaises, he, raise_apply, shutdownRaises]
   | some e =>
     cases hk : e.isCancel <;> cases c <;>
-    simp [withCtx_apply, bind_apply, tryFinally_apply, callFn, sig_enter_spec, sig_exit_spec, sig_exit_nosig, pure_apply, get_apply, hne,
+    simp [withCtx_apply, bind_apply, tryFinally_apply, callFn, translated_errreg_sig_enter_is_model, translated_errreg_sig_exit_returns_false, translated_errreg_sig_exit_without_signal, pure_apply, get_apply, hne,
       tryExcept_apply, TS.await, taskDone, h1, runForeverRaises, he, hk, raise_apply, shutdownRaises]
 
 /-- abort() before the start: the translated `run_forever` still registers the task (`_simtask`), raises the
@@ -612,20 +688,84 @@ theorem translated_errreg_run_forever_no_simulation_with_error (sc : RfScript) (
   simp [hp, he, hie, hi, hm, hc, bind_apply, get_apply, pure_apply, raise_apply,
           tryExcept_apply, TrL.runForever_for1, hye, hyp, hze, hzp, hwe, hwp, hfe]
 
-/-- the recorded observation: after an abort() before the start `_init_done` is never created, so
-    `wait_init()` on the failed simulation raises AttributeError (not EdzedInvalidState) -/
+/-- the model's `waitInitReply`, case "an error was recorded before the start" (the recorded observation): the
+    translated run_forever never creates `_init_done`, so the translated `wait_init()` on the failed simulation
+    raises AttributeError (not EdzedInvalidState) -/
 theorem translated_errreg_wait_init_after_abort_before_start (sc : RfScript) (env : Nat → St → St) (s0 : St) (e0 : Err)
     (hp : s0.phase = .notStarted) (he : s0.error = some e0)
     (hy : ∀ s, (s.error.isSome → (sc.envYield s).error = s.error) ∧ (sc.envYield s).phase = s.phase) :
     ∃ s', TrL.runForever (erfPrims sc) { st := s0 } = (s', .raise (.err e0)) ∧ s'.initDone = none ∧
-      TrE.waitInit (wiPrims env) s' = (s', .raise .attributeError) := by
-  refine ⟨_, translated_errreg_run_forever_abort_before_start sc s0 e0 hp he hy, rfl, ?_⟩
+      TrE.waitInit (wiPrims env) s' = (s', .raise .attributeError) ∧
+      waitInitReply s0 sc.initErr = .attributeError := by
+  refine ⟨_, translated_errreg_run_forever_abort_before_start sc s0 e0 hp he hy, rfl, ?_, by simp [waitInitReply, he]⟩
   rw [translated_errreg_wait_init_is_model]
   have hph : (sc.envYield (step s0 (.start sc.initErr)).1).phase = .sleep0 := by
     rw [(hy _).2, start_pre_error s0 _ e0 hp he]; simp
   have := (wake_sleep0 _ hph).2
   simp only [this]
   split <;> simp
+
+/-- … case "the start-up fails": the translated run_forever ends with the error recorded (`_init_done` exists, unset),
+    and the translated `wait_init()` raises EdzedInvalidState whatever else happens while it waits -/
+theorem translated_errreg_wait_init_after_failed_start (sc : RfScript) (env : Nat → St → St) (s0 : St) (id : Nat)
+    (hp : s0.phase = .notStarted) (he : s0.error = none) (hie : sc.initErr = some id) (hi : sc.envInit = _root_.id)
+    (hs : ∀ s, (sc.envSim s).phase = s.phase)
+    (hy : ∀ s, (s.error.isSome → (sc.envYield s).error = s.error) ∧ (sc.envYield s).phase = s.phase)
+    (hz : ∀ s, (s.error.isSome → (sc.envStop s).error = s.error) ∧ (sc.envStop s).phase = s.phase)
+    (henv : ∀ k s, s.error.isSome → (env k s).error.isSome) :
+    ∃ s', (TrL.runForever (erfPrims sc) { st := s0 }).1 = s' ∧ s'.initDone = some false ∧
+      (TrE.waitInit (wiPrims env) s').2 = .raise .invalidState ∧
+      waitInitReply s0 sc.initErr = .invalidState := by
+  have hm := translated_errreg_run_forever_is_model_partial sc s0 hp he hi hs (by simp [hie]) hy hz
+  have hd := rfModel_done sc s0 hp he hs (by simp [hie]) (fun s => (hy s).2) (fun s => (hz s).2)
+  refine ⟨_, rfl, ?_, ?_, by simp [waitInitReply, he, hie]⟩
+  · rw [hm.1]; simp [hie]
+  · rw [hm.1, translated_errreg_wait_init_is_model _ _ (by simp [hd])]
+    have hsome : (rfModel sc s0).error.isSome = true := hm.2
+    have := henv 0 (rfModel sc s0) hsome
+    simp [hie, TS.await, this]
+
+/-- … case "the start-up succeeds": with `_init_done` present, `wait_init()` returns normally as long as no error
+    is recorded and the task is running when the wait is over -/
+theorem translated_errreg_wait_init_of_running_simulation (env : Nat → St → St) (s : TS) (b : Bool)
+    (h : s.st.phase ≠ .notStarted) (hi : s.initDone = some b)
+    (he : (env s.log.length s.st).error = none) (hd : (env s.log.length s.st).phase ≠ .done) (s0 : St) (h0 : s0.error = none) :
+    (TrE.waitInit (wiPrims env) s).2 = .next () ∧ waitInitReply s0 none = .ok := by
+  rw [translated_errreg_wait_init_is_model env s h, hi]
+  simp [TS.await, he, hd, waitInitReply, h0]
+
+/-- non-vacuity of the hypotheses of `translated_errreg_run_forever_is_model_partial` and
+    `translated_errreg_run_is_model`: a cancellation requested while the circuit is simulated ends run_forever with
+    CancelledError; run() with two supporting coroutines of which #1 fails with exception 7 while the simulation
+    runs: the simulation is stopped with CancelledError('shutdown') and run() raises exception 7 -/
+example :
+    let sc : RfScript := { envSim := fun s => { s with mustCancel := true } }
+    (TrL.runForever (erfPrims sc) { st := {} }).2 = .raise (.err (.cancelled 0)) ∧
+    (rfModel sc {}).phase = .done ∧ (rfModel sc {}).error = some (.cancelled 0) := by
+  intro sc
+  have h := translated_errreg_run_forever_is_model_partial sc {} rfl rfl rfl (fun _ => rfl) (fun _ => rfl)
+    (fun _ => ⟨fun _ => rfl, rfl⟩) (fun _ => ⟨fun _ => rfl, rfl⟩)
+  have hm : rfModel sc {} = { phase := .done, error := some (.cancelled 0), wake := [.sim] } := by rfl
+  rw [h.1, hm]
+  exact ⟨rfl, rfl, rfl⟩
+
+/-- the environment of the second example -/
+def exampleEnv : Nat → St → St := fun k s =>
+  if k = 0 then (step s (.start none)).1                                             -- the task starts
+  else if k = 1 then (step (step s (.supTrigger 1 (some 7))).1 .tick).1              -- coroutine #1 fails
+  else if k = 2 then s
+  else (step (step s .tick).1 .tick).1                                               -- the simulation stops
+
+example :
+    (TrE.run (runPrims exampleEnv) (coros 2) true { st := { runMode := true } }).2 = .raise (.err (.exc 7)) ∧
+    (TrE.run (runPrims exampleEnv) (coros 2) true { st := { runMode := true } }).1.dels = [.cancelled 1] ∧
+    (TrE.run (runPrims exampleEnv) (coros 2) true { st := { runMode := true } }).1.st.error = some (.cancelled 1) := by
+  have h := translated_errreg_run_is_model exampleEnv 2 true { runMode := true } (by decide) (by decide +kernel)
+  have h1 : runRaises (runModel exampleEnv { runMode := true }).1 2 = some (.exc 7) := by decide +kernel
+  have h2 : (runModel exampleEnv { runMode := true }).2 = [.cancelled 1] := by decide +kernel
+  have h3 : (runModel exampleEnv { runMode := true }).1.error = some (.cancelled 1) := by decide +kernel
+  rw [h]
+  exact ⟨by simp only [h1]; rfl, h2, h3⟩
 
 end ErrRegTie
 
